@@ -794,7 +794,26 @@ def r12_wrap_is_a_loop(ck, P, rid='C04-R9'):
                 n += 1; ck.saw(f)
                 inner = [lp for lp in loops if x.bb.id in lp['blocks'] and lp['parent'] != -1]
                 if inner:
-                    ck.ok(R, '%s: wrap at %s is a loop' % (f.name, x.loc()))
+                    # the loop must also run for a coordinate of exactly 0 (= exactly one tile width): the valid range is [-width, 0)
+                    lp = min(inner, key=lambda l_: len(l_['blocks']))
+                    blocks = set(lp['blocks']); zero_wraps = None
+                    for b in blocks:
+                        t = f.blocks[b].term
+                        if t.op != 'br' or not t.a or all(s_ in blocks for s_ in t.d['succ']):
+                            continue
+                        cc = f.v(t.a[0])
+                        if cc is None or cc.op != 'icmp' or cc.a[1][0] != 'c':
+                            continue
+                        k = int(cc.a[1][1]); pr = cc.d['p']
+                        truth = {'sge': 0 >= k, 'sgt': 0 > k, 'sle': 0 <= k, 'slt': 0 < k, 'eq': 0 == k, 'ne': 0 != k}.get(pr)
+                        if truth is None:
+                            continue
+                        stay = t.d['succ'][0] in blocks
+                        zero_wraps = (truth == stay)
+                    if zero_wraps is False:
+                        ck.violation(R, f.name, 'wrap loop leaves coordinate 0 unwrapped', '%s stops wrapping when the source coordinate is exactly 0, i.e. exactly one tile width (%s): the valid range is [-width, 0), so the next load reads the pixel just past the end of the row' % (f.name, x.loc()), x.loc())
+                    else:
+                        ck.ok(R, '%s: wrap at %s is a loop' % (f.name, x.loc()))
                 else:
                     ck.violation(R, f.name, 'single-step wrap of the source coordinate', '%s subtracts the tile width from the source coordinate at most once per pixel (%s): with a step larger than the tile the coordinate is still outside afterwards and the next load reads past the source' % (f.name, x.loc()), x.loc())
     if n == 0:
@@ -1058,3 +1077,83 @@ def r13_weight_vector_tracks_position(ck, P, rid='C08-R13'):
                     okf = False
         if okf:
             ck.ok(R, '%s: %d weight-vector phis paired with the source position, %d interpolations aligned' % (f.name, len(xphis), nuse))
+
+
+def r14_float_bilinear_weights(ck, P, rid='C08-R14'):
+    """T-ALG: the float bilinear blend is tl*(1-dx)(1-dy) + tr*dx(1-dy) + bl*(1-dx)dy + br*dx*dy in every channel (symbolic comparison of
+    the expression trees with the arguments taken in declaration order)."""
+    import sympy
+    R = ck.rule(rid, 'bilinear_interpolation_float returns, in each of its four channels, the blend tl*(1-dx)*(1-dy) + tr*dx*(1-dy) + bl*(1-dx)*dy + br*dx*dy of the same channel of its four pixel arguments (weights identical across channels and summing to one): checked symbolically on the expression trees', floor=4)
+    n = 0
+    for un, u in sorted(P.units.items()):
+        f = u.functions.get('bilinear_interpolation_float')
+        if f is None:
+            continue
+        ck.saw(f)
+        allocas = [x for x in f.insts() if x.op == 'alloca']
+        # which alloca receives which incoming arguments
+        recv = {}
+        for x in f.insts():
+            if x.op == 'store' and x.a[0][0] == 'a':
+                base = f.root(f.path(x.a[1]))
+                if base[0] == 'alloca':
+                    recv.setdefault(base[1], []).append(x.a[0][1])
+        pix = sorted((min(v), k) for k, v in recv.items())
+        if len(pix) != 4:
+            ck.incomplete(R, '%s/%s: expected four pixel arguments spilled to locals, found %d' % (un, f.name, len(pix))); continue
+        names = ['tl', 'tr', 'bl', 'br']
+        base_name = {k: names[i] for i, (_, k) in enumerate(pix)}
+        scal = [i for i, (pn, pt) in enumerate(f.params) if pt == 'float']
+        if len(scal) != 2:
+            ck.incomplete(R, '%s/%s: expected two scalar weights' % (un, f.name)); continue
+        dx, dy = sympy.symbols('dx dy')
+        env = {}
+        def ev(o, d=0):
+            if d > 40:
+                return None
+            if o[0] == 'fc':
+                return sympy.nsimplify(float(o[1]))
+            if o[0] == 'c':
+                return sympy.Integer(int(o[1]))
+            if o[0] == 'a':
+                return dx if o[1] == scal[0] else dy if o[1] == scal[1] else None
+            if o[0] != 'v':
+                return None
+            x = f.by_id[o[1]]
+            if x.op in ('fadd', 'fsub', 'fmul'):
+                a, b = ev(x.a[0], d + 1), ev(x.a[1], d + 1)
+                if a is None or b is None:
+                    return None
+                return {'fadd': a + b, 'fsub': a - b, 'fmul': a * b}[x.op]
+            if x.op == 'call' and (x.callee or '').startswith('llvm.fmuladd'):
+                a, b, c = (ev(y, d + 1) for y in x.a[:3])
+                return None if None in (a, b, c) else a * b + c
+            if x.op == 'load':
+                p = f.path(x.a[0]); r = f.root(p)
+                fs = [s for s in p[1] if isinstance(s, str) and s.startswith('argb_t.')]
+                if r[0] == 'alloca' and r[1] in base_name and fs:
+                    return sympy.Symbol('%s_%s' % (base_name[r[1]], fs[-1].split('.')[1]))
+                return None
+            return None
+        outs = {}
+        for x in f.insts():
+            if x.op == 'store' and x.a[0][0] == 'v':
+                p = f.path(x.a[1]); r = f.root(p)
+                fs = [s for s in p[1] if isinstance(s, str) and s.startswith('argb_t.')]
+                if r[0] == 'alloca' and r[1] not in base_name and fs:
+                    outs[fs[-1].split('.')[1]] = (ev(x.a[0]), x)
+        for c in 'argb':
+            if c not in outs:
+                ck.incomplete(R, '%s/%s: channel %s of the result is not stored' % (un, f.name, c)); continue
+            got, x = outs[c]
+            n += 1
+            if got is None:
+                ck.incomplete(R, '%s/%s: channel %s is not an arithmetic expression of the arguments' % (un, f.name, c)); continue
+            tl, tr, bl, br = (sympy.Symbol('%s_%s' % (nm, c)) for nm in names)
+            want = tl * (1 - dx) * (1 - dy) + tr * dx * (1 - dy) + bl * (1 - dx) * dy + br * dx * dy
+            if sympy.expand(got - want) == 0:
+                ck.ok(R, '%s/%s channel %s' % (un, f.name, c))
+            else:
+                ck.violation(R, f.name, 'channel %s (%s)' % (c, un), 'bilinear_interpolation_float computes channel %s as %s, which is not the four-neighbour blend (difference %s): that channel is interpolated with other weights than the rest of the pixel' % (c, sympy.factor(got), sympy.factor(sympy.expand(got - want))), x.loc())
+    if n == 0:
+        ck.incomplete(R, 'bilinear_interpolation_float not found in any unit')
